@@ -41,7 +41,7 @@ func encPlainOf(s *astisub.Subtitles) string {
 }
 
 func suiteConvertPlain(R *runner, r *rng) {
-	R.rule("conversion through the plain view: unstyled cue lists (1..5 cues, 1..3 lines of Latin words incl. accented letters and inner spaces, times on the source's grid) for every (source, destination) pair among the modelled codecs; the source is written by the library (and rendered by the harness for SubRip/WebVTT), converted by the library; destination bytes vs the model's convert_plain; the source reader's cues vs the model's reader + to_plain")
+	R.rule("conversion through the plain view: unstyled cue lists (1..5 cues, 1..3 lines of Latin words incl. accented letters and inner spaces, times on the source's grid) for every (source, destination) pair among the modelled codecs; the source is written by the library (and rendered by the harness for SubRip/WebVTT), converted by the library; destination bytes vs the model's convert_plain; the source reader's cues vs the model's reader + to_plain; every second case additionally with 1..3 operations in between (sync, fragment, unfragment, order, optimize, linear correction, merge with an unstyled SubRip document): destination bytes vs the model's convert_plain_ops")
 	N := 40
 	if R.tier == "thorough" {
 		N = 600
@@ -103,6 +103,41 @@ func suiteConvertPlain(R *runner, r *rng) {
 					o.Impl = (&enc{}).n(0).bytes(out.Bytes()).String()
 				}
 				R.add(o)
+				// the same pair with 1..3 operations in between (merge documents: unstyled SubRip)
+				if c%2 == 1 {
+					ops := randConvOps(r, 1+r.intn(3))
+					for k := range ops {
+						if ops[k].name == "merge" {
+							mc := plainCues(r, 1+r.intn(3))
+							md, _ := renderSrt(r, mc)
+							ops[k].mergeWith, ops[k].mergeBytes = mc, []byte(md)
+						}
+					}
+					e := (&enc{}).n(src.code).n(dst.code).bytes(doc)
+					encConvOps(e, ops)
+					o2 := &obs{Suite: "convplainops", Group: "plainops." + src.name + "->" + dst.name, Input: e.String(), NT: true,
+						Human: map[string]interface{}{"source": src.name, "destination": dst.name, "document": string(doc), "operations": describeOpsExact(ops)}}
+					R.count("plainops." + src.name + "->" + dst.name)
+					s3, _ := src.read(doc)
+					var out2 bytes.Buffer
+					var werr2 error
+					p2 := safely(func() {
+						if werr2 = applyOpsLib(s3, ops, func(b []byte, _ string) (*astisub.Subtitles, error) {
+							return astisub.ReadFromSRT(bytes.NewReader(b))
+						}); werr2 == nil {
+							werr2 = dst.write(s3, &out2)
+						}
+					})
+					switch {
+					case p2 != "":
+						o2.Impl, o2.Oracle, o2.Sig = "2", fmt.Sprintf("%s -> ops -> %s panicked: %s", src.name, dst.name, p2), "convplainops-panic"
+					case werr2 != nil:
+						o2.Impl = "1"
+					default:
+						o2.Impl = (&enc{}).n(0).bytes(out2.Bytes()).String()
+					}
+					R.add(o2)
+				}
 			}
 		}
 	}
